@@ -231,6 +231,10 @@ func evalC11(t *testing.T, c *Case, st *Stats, relax Relax) *Violation {
 	st.Add("sched_steps", int64(out.Steps))
 	st.Add("context_switches", int64(out.Switches))
 	st.Add("preemptions_inside_calls", int64(out.Preempts))
+	st.Mark("distinct_interleavings", fmt.Sprintf("%x", out.SwitchHash))
+	if len(hist) > 0 && hist[len(hist)-1].Final != nil {
+		st.Mark("distinct_final_states", hist[len(hist)-1].Final.String())
+	}
 	if hv != nil {
 		return hv
 	}
